@@ -124,7 +124,13 @@ def failure_propagated(an, cs, dty):
         return False, "a path from the read reaches a return without examining its result"
     fail = 0
     for t, st in leaves:
-        if ("var", base, failname) in st.facts:
+        failed = ("var", base, failname) in st.facts
+        if not failed and R.has_tree():
+            # the result is the case analysis of a dissolved helper: which case is it on this outcome?
+            rs = an.simp(R, st.facts)
+            b2, n2 = an.norm_var(rs, vs)
+            failed = (b2 is None and n2 == 1) or (b2 is not None and ("var", b2, n2[1]) in st.facts)
+        if failed:
             fail += 1
             if not is_err(t) and not is_forward(t):
                 return False, "an outcome reached with the read having failed returns %s" % pp(t)[:140]
